@@ -378,6 +378,7 @@ func skProgramRec(seq []skNode, inFunc bool) (*Prog, *skRec) {
 		body = append(body, b.node(n, nil, false)...)
 		body = append(body, b.marker(nil))
 	}
+	pre = append(skLoopFuncDefs(seq), pre...)
 	if inFunc {
 		return &Prog{Stmts: append(pre, FuncDef{Name: "wrapped", Body: body}, ExprStmt{X: Call{Fn: "wrapped"}})}, b.rec
 	}
